@@ -10,8 +10,8 @@
 (* (fresh, needs sanitising, collides, keyword, case variants, empty, leading digit, unchanged,     *)
 (* grown, name of the other table's column, "id", a keyword of the lookup functions, the name of a   *)
 (* function that formulas call).                                                                    *)
-(* Full = every combination; otherwise every target x path with the fresh name, every target x      *)
-(* name class with one path, and a diagonal.                                                        *)
+(* Full = every combination; otherwise every target x path with the fresh name and every target x   *)
+(* every other name class with the first path.                                                      *)
 (* One state per input (in Lanes chains); SpecSane: the reference outcome (names picked as          *)
 (* identifiers.py intends, texts re-rendered, values kept) is admissible, and only tokens that       *)
 (* mention the target differ between the renderings.  The inputs are written to OUT_FILE.            *)
@@ -196,21 +196,22 @@ TabReqs(D, e) ==
      <<"function", "PREVIOUS">> >>
 
 Mk(d, e, p, r) == [doc |-> d, target |-> e, path |-> p, cls |-> r[1], req |-> r[2]]
-\* `full`: every combination; otherwise every target x path with the first name class and every
-\* target x name class with the first path
-InputsOf(D, d, full, targets, paths, Reqs(_, _)) ==
+\* mode "full": every combination; "reduced": every target x path with the first name class and every
+\* target x name class with the first path; "quick": likewise, but every other name class per target
+InputsOf(D, d, mode, targets, paths, Reqs(_, _)) ==
   Flat([t \in 1..Len(targets) |-> Flat([p \in 1..Len(paths) |->
      LET rs == Reqs(D, targets[t])
-         keep(r) == full \/ r = 1 \/ p = 1
+         keep(r) == mode = "full" \/ r = 1 \/ (p = 1 /\ (mode = "reduced" \/ (t + r) % 2 = 0))
      IN SelectSeq([r \in 1..Len(rs) |-> <<r, Mk(d, targets[t], paths[p], rs[r])>>],
                   LAMBDA x : keep(x[1]))])])
-InputsFor(D, d, full) ==
-  Map1(InputsOf(D, d, full, ColTargets, ColPathSeq, ColReqs) \o InputsOf(D, d, full, TabTargets, TabPathSeq, TabReqs),
+InputsFor(D, d, mode) ==
+  Map1(InputsOf(D, d, mode, ColTargets, ColPathSeq, ColReqs) \o InputsOf(D, d, mode, TabTargets, TabPathSeq, TabReqs),
        LAMBDA x : x[2])
 \* the documents and the inputs of this configuration
 Space == LET D1 == Doc(1) IN
-         IF Level < 2 THEN [docs |-> <<D1>>, xs |-> InputsFor(D1, 1, Full)]
-         ELSE LET D2 == Doc(2) IN [docs |-> <<D1, D2>>, xs |-> InputsFor(D1, 1, Full) \o InputsFor(D2, 2, FALSE)]
+             m1 == IF Full THEN "full" ELSE "quick" IN
+         IF Level < 2 THEN [docs |-> <<D1>>, xs |-> InputsFor(D1, 1, m1)]
+         ELSE LET D2 == Doc(2) IN [docs |-> <<D1, D2>>, xs |-> InputsFor(D1, 1, m1) \o InputsFor(D2, 2, "reduced")]
 
 (* ---- reference outcome ------------------------------------------------------------------------- *)
 Hidden == [e \in {"T1.manualSort", "T2.manualSort"} |-> "manualSort"]
@@ -221,10 +222,11 @@ Ref(in) ==
       used == UpSet(Siblings(in, N0) \cup (IF kind = "col" THEN {"id"} ELSE {}))
       new  == IF in.path = "label_untied" THEN N0[in.target] ELSE PickName(kind, in.req, used)
       N1   == [N0 EXCEPT ![in.target] = new]
-      texts(Nm) == [e \in DOMAIN N0 \ TableIds(in.sch) |->
-                      IF e \in ColIds(in.sch) THEN FormulaText(Nm, ColOf(in.sch, e)) ELSE ""]
+      cids == ColIds(in.sch)
+      ents == DOMAIN N0 \ TableIds(in.sch)
+      texts(Nm) == [e \in ents |-> IF e \in cids THEN FormulaText(Nm, in.sch.cols[e]) ELSE ""]
       t0   == texts(N0)
-      vals == [e \in DOMAIN N0 \ TableIds(in.sch) |-> <<"#0">>]
+      vals == [e \in ents |-> <<"#0">>]
   IN [fail |-> "", exc |-> "", names0 |-> N0, names1 |-> N1, names2 |-> N0,
       texts0 |-> t0, texts1 |-> texts(N1), texts2 |-> t0,
       vals0 |-> vals, vals1 |-> vals, vals1r |-> vals, vals2 |-> vals, dig0 |-> 0, dig1 |-> 1, cons1 |-> TRUE, undo_exc |-> ""]
